@@ -355,6 +355,12 @@ func (p *c13PKI) serverLeaf(slot int, ca int, cn string, sans []string) *c13Leaf
 
 // peerLeaf returns the certificate of the given kind relative to trusted CA `ca`, and the key the peer signs with.
 func (p *c13PKI) peerLeaf(kind string, ca int, name string) (*c13Leaf, *ecdsa.PrivateKey) {
+	if kind == c13PeerOtherCA {
+		// the certificate of the other CA is the very certificate that is the RIGHT one wherever the other CA is the configured one:
+		// the same peer, with the same certificate and key, is admitted by contexts that trust its CA and must be refused by those
+		// that do not - in whatever order it meets them
+		return p.peerLeaf(c13PeerRight, 1-ca, name)
+	}
 	key := fmt.Sprintf("peer|%s|%d|%s", kind, ca, name)
 	p.mu.Lock()
 	defer p.mu.Unlock()
